@@ -121,13 +121,6 @@ Definition plan_of (c : bcase) : res plan :=
   if negb (init_bypass_ok funcs (sl_down0 sl)) then Err EB_INITTYPE else
   Ok (mkPlan funcs ii sl).
 
-(* the fuel of Reorder's topological sort is enough for this case (proofs/TopoFuel.v) *)
-Definition case_fuel_ok (c : bcase) : bool :=
-  match assemble c with
-  | Ok funcs0 => reorder_fuel_ok (bc_te c) funcs0
-  | _ => true
-  end.
-
 Fixpoint compile_all (te : tyenv) (dn up : list (nat * option nat)) (l : list (prov * list nat))
   : option (list (prov * cp)) :=
   match l with
